@@ -1858,6 +1858,7 @@ func main() {
 	mon.Floor("op:seqbag-counts", 500)
 	cliFloors()
 	mon.Floor("cli-multi:ok", 60)
+	mon.Floor("profile-file:more-than-100-sites", 500)
 	mon.Main("C14", []mon.Sub{
 		{Name: "witness", Quick: 12, Thorough: 12, Run: runWitness},
 		{Name: "iupac", Quick: 512, Thorough: 512, Run: runIupac},
@@ -1869,6 +1870,7 @@ func main() {
 		{Name: "refmut", Quick: 8000, Thorough: 150000, Run: runRefMut},
 		{Name: "codon", Quick: 3000, Thorough: 40000, Run: runCodon},
 		{Name: "cli", Quick: 368, Thorough: 3680, Serial: true, Run: runCli},
+		{Name: "profile-file", Quick: 2000, Thorough: 40000, Run: runProfileFile},
 		{Name: "cli-multi", Quick: 130, Thorough: 1300, Run: runCliMulti},
 	})
 }
